@@ -63,6 +63,7 @@ def _child(ctx, fn, cases, start, slot, wfd):
         out = ("err", traceback.format_exc())
     finally:
         sub.cleanup()
+        ctx.cleanup()  # this process's copy of the parent context may have created a scratch directory of its own
     data = pickle.dumps(out)
     with os.fdopen(wfd, "wb") as w:
         w.write(data)
